@@ -157,6 +157,10 @@ func (vc *VC) setupAndRun() *Exec {
 			}
 			vc.assume(ev.evalBool(r.Expr))
 		}
+		for _, ab := range spec.AssumeBody {
+			vc.assume(ev.evalBool(ab.Expr))
+			vc.assumptions[fmt.Sprintf("the body of %s is verified only for inputs with %s; for the others its contract is ASSUMED, not proved", vc.key, strings.TrimSpace(ab.Text))] = true
+		}
 		for _, f := range spec.Findings {
 			// known finding: the contract is proved outside the carve-out
 			vc.assume(sNot(ev.evalBool(f.Expr)))
